@@ -135,7 +135,6 @@ void w_call(void)
     _Bool sat = in_cnt[c] + 1 == in_max[c];
     __CPROVER_assert(in_ring_cm(SENT_SAT, c) == sat && in_ring_cm(SENT_ACTIVE, c) == !sat, "[C03] POST call.accepted.saturated_iff_count_equals_max");
     if (sat) {
-      __CPROVER_assert(exps->saturated._b0._b0.prev == LE_OF(c), "[C03] POST call.accepted.saturated_appended_last");
       for (int k = 0; k < 2; k++) if (k < in_K[c])
         __CPROVER_assert(!handle_linked(c, k), "[C05,C06] POST call.accepted.saturated_expectation_leaves_its_sequences");
     }
@@ -244,13 +243,12 @@ void w_mockdtor(void)
   EXPS_DTOR(exps);
   __CPROVER_assert(vp_rep_n == expected, "[C04] POST mockdtor.one_report_per_pending_unreported_expectation");
   for (int q = 0; q < VP_LOG_CAP; q++) if (q < vp_rep_n) __CPROVER_assert(vp_rep[q].sev == 1, "[C04,C15] POST mockdtor.reports_are_nonfatal");
-  /* reports come in list order: active (newest first), then saturated; each carries its expectation's location */
-  int q = 0;
-  for (int pass = 0; pass < 2; pass++)
-    for (int i = 0; i < N; i++) if (in_where[i] == pass && !in_reported[i] && in_cnt[i] < in_min[i]) {
-      if (q < VP_LOG_CAP) __CPROVER_assert(vp_rep[q].file == nm_file[i] && vp_rep[q].line == 100 + i, "[C04,C15] POST mockdtor.report_carries_the_expectation_location");
-      q++;
-    }
+  /* each pending unreported expectation is named by exactly one report carrying its location (any order) */
+  for (int i = 0; i < N; i++) {
+    int hits = 0;
+    for (int q = 0; q < VP_LOG_CAP; q++) if (q < vp_rep_n && vp_rep[q].file == nm_file[i] && vp_rep[q].line == 100 + i) hits++;
+    __CPROVER_assert(hits == ((in_where[i] != 2 && !in_reported[i] && in_cnt[i] < in_min[i]) ? 1 : 0), "[C04,C15] POST mockdtor.exactly_one_report_with_its_location_per_pending_expectation");
+  }
   __CPROVER_assert(vp_exc == 0 && !vp_terminated, "[C15] POST mockdtor.does_not_throw");
   for (int i = 0; i < N; i++) {
     __CPROVER_assert(cm[i]->_b0._b0.next == LE_OF(i) && cm[i]->_b0._b0.prev == LE_OF(i), "[C04,C14] POST mockdtor.every_expectation_unlinked");
@@ -352,10 +350,15 @@ void w_nomatch_text(void)
     }
   int seen = 0; _Bool ok = 1; int n_int = 0; long ints[2]; _Bool func_named = 0;
   for (int k = 0; k < VP_TOK_CAP; k++) if (k < m->n) {
-    if (m->t[k].kind == VP_T_CSTR && is_marker(m->t[k].p)) { if (seen >= ne || exp[seen] != m->t[k].p) ok = 0; seen++; }
+    if (m->t[k].kind == VP_T_CSTR && is_marker(m->t[k].p)) {
+      if (sat_match) { _Bool in_exp = 0; for (int q = 0; q < N * 2 + 1; q++) if (q < ne && exp[q] == m->t[k].p) in_exp = 1; if (!in_exp) ok = 0; }   /* saturated matches: any order */
+      else if (seen >= ne || exp[seen] != m->t[k].p) ok = 0;                                                                                          /* live ones: newest first */
+      seen++;
+    }
     if (m->t[k].kind == VP_T_INT) { if (n_int < 2) ints[n_int] = (long)m->t[k].v; n_int++; }
     if (m->t[k].kind == VP_T_CSTR && m->t[k].p == nm_func) func_named = 1;
   }
+  if (sat_match) for (int q = 0; q < N * 2 + 1; q++) if (q < ne) { int hits = 0; for (int k = 0; k < VP_TOK_CAP; k++) if (k < m->n && m->t[k].kind == VP_T_CSTR && m->t[k].p == exp[q]) hits++; if (hits != 1) ok = 0; }
   __CPROVER_assert(ok && seen == ne, "[C15] POST nomatch.lists_matching_saturated_else_every_live_expectation_newest_first_with_first_failing_WITH");
   __CPROVER_assert(func_named, "[C15] POST nomatch.names_the_function");
   __CPROVER_assert(n_int == 2 && ints[0] == 1 && ints[1] == (long)x, "[C15] POST nomatch.prints_every_actual_argument");
